@@ -149,9 +149,17 @@ def run(tier, seed, replay=None):
             root = tempfile.mkdtemp(prefix="c10_seed_", dir=tmp)
             for p, c in tree:
                 F.write_file(root, p, c)
-            F.run_scan(root, [])
-            data = open(F.cache_path(root), "rb").read()
-            doc = json.loads(data)
+            try:
+                F.run_scan(root, [])
+                data = open(F.cache_path(root), "rb").read()
+                doc = json.loads(data)
+            except (OSError, ValueError) as ex:
+                # the first fault of all: no cache yet — the scan has to leave a complete one behind, also for a tree
+                # without a single supported file (seeded change C10-26: nothing written for an empty code base)
+                chk.violation({"tree": tree, "fault": "cache missing"},
+                              f"a scan of the tree {[p for p, _ in tree]} without a cache left no readable cache behind: {type(ex).__name__}: {str(ex)[:160]}")
+                shutil.rmtree(root, ignore_errors=True)
+                continue
             shutil.rmtree(root)
             faults = []
             step = 1 if (tier != "quick" or len(data) < 900) else (3 if len(data) < 2500 else 7)
